@@ -459,9 +459,10 @@ func showCmd(args []string) {
 		fmt.Println(s)
 	}
 	fmt.Println("touched:", out.Touched, "end-block transitions:", out.EndBlockTransitions, "stats:", out.Stats)
-	last := len(out.Blocks) - 1
-	for j, x := range out.Blocks[last] {
-		fmt.Printf("%s: %s\n", out.Labels[last][j], short(x))
+	for last := len(out.Blocks) - 2; last < len(out.Blocks); last++ {
+		for j, x := range out.Blocks[last] {
+			fmt.Printf("%s: %s\n", out.Labels[last][j], short(x))
+		}
 	}
 }
 
